@@ -62,7 +62,7 @@ pub fn run(tier: &str) -> Result<Report, String> {
     let mut rep = Report::new("C18", tier, "model_checking");
     std_assumptions(&mut rep);
     let nets = core_nets(3)?;
-    let (m_frag, m_free, pool) = (5, 5, 5);
+    let (m_frag, m_free, pool) = if tier == "quick" { (5, 5, 5) } else { (6, 5, 8) };
     let mut steady_free = vec![];
     // every core network, and the multi-colour ones also on graphs whose unit set was restricted after construction
     // (SymbolicAsyncGraph::restrict) to every second colour / to each single colour (a restriction to steady-state-free
